@@ -36,7 +36,7 @@ pub fn c17_tree() -> TreeProp {
       // and overflows the column addition (debug builds only)
       let non_ascii = crate::refmodel::ref_src(&c.trees[0]).iter().any(|b| *b >= 128);
       let map_driven = c.trees[0].has(&|x| matches!(x, T::Sms { .. } | T::Cached(..)));
-      if non_ascii && map_driven && f.detail.contains("overflow") { Some("K4".into()) } else { None }
+      if non_ascii && map_driven && f.detail.contains("attempt to add with overflow") { Some("K4".into()) } else { None }
     }),
     corpus: vec![],
   }
